@@ -138,6 +138,7 @@ type funcInfo struct {
 	headers  map[int]bool
 	hasLoop  bool
 	tracked  map[*ssa.Alloc]bool
+	escPaths map[*ssa.Alloc][][]int // field paths of a tracked alloc whose address escapes (callee may write them)
 	pos      map[ssa.Instruction][2]int // block index, instr index
 	ninstr   int
 }
@@ -148,7 +149,7 @@ func infoOf(fn *ssa.Function) *funcInfo {
 	if fi, ok := finfoCache[fn]; ok {
 		return fi
 	}
-	fi := &funcInfo{fn: fn, backEdge: map[[2]int]bool{}, headers: map[int]bool{}, tracked: map[*ssa.Alloc]bool{}, pos: map[ssa.Instruction][2]int{}}
+	fi := &funcInfo{fn: fn, backEdge: map[[2]int]bool{}, headers: map[int]bool{}, tracked: map[*ssa.Alloc]bool{}, escPaths: map[*ssa.Alloc][][]int{}, pos: map[ssa.Instruction][2]int{}}
 	for _, b := range fn.Blocks {
 		for i, in := range b.Instrs {
 			fi.pos[in] = [2]int{b.Index, i}
@@ -164,8 +165,15 @@ func infoOf(fn *ssa.Function) *funcInfo {
 	}
 	for _, b := range fn.Blocks {
 		for _, in := range b.Instrs {
-			if a, ok := in.(*ssa.Alloc); ok && addrConfined(a, a) {
-				fi.tracked[a] = true
+			if a, ok := in.(*ssa.Alloc); ok {
+				if addrConfined(a, a) {
+					fi.tracked[a] = true
+				} else if esc, okRoot := escapePaths(a, a, nil); okRoot && len(esc) > 0 {
+					// only addresses of some fields escape (&x.f handed to a callee): the other fields
+					// of the local stay under the function's own control
+					fi.tracked[a] = true
+					fi.escPaths[a] = esc
+				}
 			}
 		}
 	}
@@ -213,6 +221,51 @@ func addrConfined(v ssa.Value, root *ssa.Alloc) bool {
 	return true
 }
 
+// escapePaths: like addrConfined, but collecting the field paths (from root) at which the address
+// escapes instead of giving up; ok is false when the root address itself escapes.
+func escapePaths(v ssa.Value, root *ssa.Alloc, path []int) ([][]int, bool) {
+	refs := v.Referrers()
+	if refs == nil {
+		return nil, false
+	}
+	var out [][]int
+	escapeHere := func() bool {
+		if len(path) == 0 {
+			return false
+		}
+		out = append(out, append([]int{}, path...))
+		return true
+	}
+	for _, r := range *refs {
+		switch x := r.(type) {
+		case *ssa.FieldAddr:
+			sub, ok := escapePaths(x, root, append(append([]int{}, path...), x.Field))
+			if !ok {
+				return nil, false
+			}
+			out = append(out, sub...)
+		case *ssa.UnOp:
+			if x.Op != token.MUL {
+				if !escapeHere() {
+					return nil, false
+				}
+			}
+		case *ssa.Store:
+			if x.Val == v {
+				if !escapeHere() {
+					return nil, false
+				}
+			}
+		case *ssa.DebugRef:
+		default:
+			if !escapeHere() {
+				return nil, false
+			}
+		}
+	}
+	return out, true
+}
+
 // readOnlyFreeVar: the closure never stores through the captured variable and does not pass its
 // address on.
 func readOnlyFreeVar(cf *ssa.Function, fv *ssa.FreeVar) bool {
@@ -256,7 +309,7 @@ func (fi *funcInfo) allocPath(addr ssa.Value) (*ssa.Alloc, []int, bool) {
 			path = append([]int{x.Field}, path...)
 			addr = x.X
 		case *ssa.Alloc:
-			if fi.tracked[x] {
+			if fi.tracked[x] && !fi.escapes(x, path) {
 				return x, path, true
 			}
 			return nil, nil, false
@@ -264,6 +317,16 @@ func (fi *funcInfo) allocPath(addr ssa.Value) (*ssa.Alloc, []int, bool) {
 			return nil, nil, false
 		}
 	}
+}
+
+// escapes: the location (alloc, path) overlaps a field whose address is handed out.
+func (fi *funcInfo) escapes(a *ssa.Alloc, path []int) bool {
+	for _, e := range fi.escPaths[a] {
+		if hasPrefix(path, e) || hasPrefix(e, path) {
+			return true
+		}
+	}
+	return false
 }
 
 func hasPrefix(p, q []int) bool { // q is a prefix of p
@@ -872,12 +935,17 @@ func (c *Ctx) fieldVersion(f *types.Var, u ssa.Instruction) string {
 // search for the last covering store.
 func (c *Ctx) memAt(a *ssa.Alloc, path []int, blk, idx int, typ types.Type) *Term {
 	// a struct-typed location with stores to its parts is resolved field by field
-	if st, ok := typ.Underlying().(*types.Struct); ok && c.hasDeeperStore(a, path) {
+	if st, ok := typ.Underlying().(*types.Struct); ok && (c.hasDeeperStore(a, path) || (len(c.fi.escPaths[a]) > 0 && c.fi.escapes(a, path))) {
 		args := make([]*Term, st.NumFields())
 		for i := 0; i < st.NumFields(); i++ {
 			args[i] = c.memAt(a, append(append([]int{}, path...), i), blk, idx, st.Field(i).Type())
 		}
 		return &Term{Kind: "struct", Name: typeName(typ), Args: args, Typ: typ}
+	}
+	if len(c.fi.escPaths[a]) > 0 && c.fi.escapes(a, path) {
+		// a field whose address was handed out: whatever the callee left there
+		raw := &Term{Kind: "alloc", Name: "&" + a.Comment + "#" + c.instrID(a), Val: a, Typ: a.Type()}
+		return &Term{Kind: "deref", Name: fmt.Sprint(path), Args: []*Term{raw}, ID: fmt.Sprintf("%s@%d.%d%v", c.site, blk, idx, path), Typ: typ}
 	}
 	b := c.fn.Blocks[blk]
 	for i := idx - 1; i >= 0; i-- {
@@ -1167,12 +1235,40 @@ func (c *Ctx) callTerm(call *ssa.Call) *Term {
 			}
 		}
 	}
+	// a one-block, effect-free repo helper with an integer or struct result that no rule names —
+	// `func (l limits) after(d int64) int64 { return l.target + d }`, `func (n *G) limits() limits {
+	// return limits{min: n.MinSize(), …} }` — is the expression it returns
+	if f := cc.StaticCallee(); f != nil && c.p.keepCalls != nil && !c.p.keepCalls[f] && c.p.inRepo(f) && f.Blocks != nil && len(f.Blocks) == 1 && len(f.FreeVars) == 0 && c.depth < c.maxD && f != c.fn {
+		rt := call.Type()
+		_, isStruct := rt.Underlying().(*types.Struct)
+		if (isInteger(rt) || isStruct) && c.p.readOnly(f) {
+			if r, ok := f.Blocks[0].Instrs[len(f.Blocks[0].Instrs)-1].(*ssa.Return); ok && len(r.Results) == 1 {
+				pure := true
+				for _, in := range f.Blocks[0].Instrs {
+					switch y := in.(type) {
+					case *ssa.Store:
+						if _, isAlloc := baseOfAddr(y.Addr).(*ssa.Alloc); !isAlloc {
+							pure = false
+						}
+					case *ssa.Defer, *ssa.Go, *ssa.Panic, *ssa.MapUpdate, *ssa.Send:
+						pure = false
+					}
+				}
+				if pure {
+					return c.child(f, call, args).Term(r.Results[0])
+				}
+			}
+		}
+	}
 	if f := cc.StaticCallee(); f != nil {
 		name := funcID(f)
 		if !c.p.inRepo(f) {
 			name = shortFuncName(f)
 		}
 		t := &Term{Kind: "call", Name: name, Obj: f.Object(), Fn: f, Args: args, Typ: call.Type()}
+		if c.p.inRepo(f) && f.Blocks != nil && isBool(call.Type()) {
+			t.C = c
+		}
 		if c.p.inRepo(f) && f.Blocks != nil {
 			if !c.stableCallee(f) {
 				t.ID = c.instrID(call)
@@ -1310,6 +1406,16 @@ func (c *Ctx) formula(v ssa.Value) *Formula {
 					}
 				}
 			}
+			if x.Op == token.EQL || x.Op == token.NEQ {
+				// a decision function with an enumerated result: `switch classify(n) { case k: … }` — the
+				// comparison with k is the disjunction of the paths on which the function returns k
+				if f := c.enumDecided(x.X, x.Y); f != nil {
+					if x.Op == token.NEQ {
+						return Not(f)
+					}
+					return f
+				}
+			}
 			return cmpFormula(x.Op, c.Term(x.X), c.Term(x.Y))
 		case token.AND, token.OR:
 			if isBool(x.Type()) {
@@ -1333,7 +1439,7 @@ func (c *Ctx) formula(v ssa.Value) *Formula {
 			return Or(alts...)
 		}
 	case *ssa.Call:
-		if f := x.Common().StaticCallee(); f != nil && c.inlinable(f) && isBool(x.Type()) {
+		if f := x.Common().StaticCallee(); f != nil && c.inlinable(f) && isBool(x.Type()) && !c.p.noExpand[f] {
 			args := make([]*Term, len(x.Common().Args))
 			for i, a := range x.Common().Args {
 				args[i] = c.Term(a)
@@ -1341,9 +1447,10 @@ func (c *Ctx) formula(v ssa.Value) *Formula {
 			ch := c.child(f, x, args)
 			return ch.returnFormula(0)
 		}
+		return Atom(c.Term(v)) // not expanded here: the call is its own atom
 	case *ssa.Extract:
 		if call, ok := x.Tuple.(*ssa.Call); ok && isBool(x.Type()) {
-			if f := call.Common().StaticCallee(); f != nil && c.inlinable(f) {
+			if f := call.Common().StaticCallee(); f != nil && c.inlinable(f) && !c.p.noExpand[f] {
 				args := make([]*Term, len(call.Common().Args))
 				for i, a := range call.Common().Args {
 					args[i] = c.Term(a)
@@ -1463,6 +1570,14 @@ func termFormula(t *Term) *Formula {
 		}
 	case "boolf":
 		return t.formula()
+	case "call":
+		// a boolean call passed on as an argument (hoisted out of a loop, handed to a helper): its
+		// propositional reading is that of the call where it was made
+		if t.C != nil {
+			if call, ok := t.Val.(*ssa.Call); ok && isBool(call.Type()) {
+				return t.C.Formula(call)
+			}
+		}
 	}
 	return Atom(t)
 }
@@ -1785,4 +1900,76 @@ func topoBlocks(fn *ssa.Function) []*ssa.BasicBlock {
 func isErrorType(t types.Type) bool {
 	n, ok := t.(*types.Named)
 	return ok && n.Obj().Pkg() == nil && n.Obj().Name() == "error"
+}
+
+// enumDecided: one of a, b is an integer constant k and the other the result of an inlinable repo
+// function every return of which is an integer constant of a named type (an enumeration); returns
+// the formula of "the function returns k" with the call's arguments bound, or nil.
+func (c *Ctx) enumDecided(a, b ssa.Value) *Formula {
+	k, ok := a.(*ssa.Const)
+	call, ok2 := b.(*ssa.Call)
+	if !ok || !ok2 {
+		k, ok = b.(*ssa.Const)
+		call, ok2 = a.(*ssa.Call)
+	}
+	if !ok || !ok2 || k.Value == nil || k.Value.Kind() != constant.Int || call.Common().IsInvoke() {
+		return nil
+	}
+	f := call.Common().StaticCallee()
+	if f == nil || !c.inlinable(f) || c.p.noExpand[f] || f.Signature.Results().Len() != 1 || !isInteger(f.Signature.Results().At(0).Type()) {
+		return nil
+	}
+	if _, isNamed := f.Signature.Results().At(0).Type().(*types.Named); !isNamed {
+		return nil // plain integers are arithmetic, not tags
+	}
+	args := make([]*Term, len(call.Common().Args))
+	for i, av := range call.Common().Args {
+		args[i] = c.Term(av)
+	}
+	ch := c.child(f, call, args)
+	out := FFalse
+	for _, blk := range f.Blocks {
+		r, ok := blk.Instrs[len(blk.Instrs)-1].(*ssa.Return)
+		if !ok {
+			continue
+		}
+		rk, isConst := r.Results[0].(*ssa.Const)
+		if !isConst || rk.Value == nil || rk.Value.Kind() != constant.Int {
+			return nil
+		}
+		if constant.Compare(rk.Value, token.EQL, k.Value) {
+			out = Or(out, ch.BlockPC(blk))
+		}
+	}
+	return out
+}
+
+// seeThrough: t is the call of a one-block, effect-free repo helper with one result (an accessor
+// or expression helper such as `func (l *lock) heldFor() time.Duration { return time.Since(l.t) }`):
+// the returned expression over the call's arguments; otherwise t itself.
+func (c *Ctx) seeThrough(t *Term) *Term {
+	for i := 0; i < 3; i++ {
+		if t == nil || t.Kind != "call" || t.Fn == nil || !c.p.inRepo(t.Fn) || t.Fn.Blocks == nil || len(t.Fn.Blocks) != 1 || t.Fn.Signature.Results().Len() != 1 {
+			return t
+		}
+		blk := t.Fn.Blocks[0]
+		r, ok := blk.Instrs[len(blk.Instrs)-1].(*ssa.Return)
+		if !ok {
+			return t
+		}
+		for _, in := range blk.Instrs {
+			switch y := in.(type) {
+			case *ssa.Store:
+				if _, isAlloc := baseOfAddr(y.Addr).(*ssa.Alloc); !isAlloc {
+					return t
+				}
+			case *ssa.Defer, *ssa.Go, *ssa.Panic, *ssa.MapUpdate, *ssa.Send:
+				return t
+			}
+		}
+		ch := c.childTerm(t)
+		ch.depth = 0
+		t = ch.Term(r.Results[0])
+	}
+	return t
 }
